@@ -147,7 +147,14 @@ def _run_cases(job, specs, descs, mods, res, bump, mode, spans, bytes_mode, tag)
     limit = job.get('time_limit', 0.3)
     post = POST.get(job.get('post'))
     counters = Counters()
-    mdl = Model(specs, counters=counters, deviations=job.get('deviations', ()))
+    models = {}
+
+    def model_for(mi):
+        # parsing through module mi of a chain: the chain ends there
+        m = models.get(mi)
+        if m is None:
+            m = models[mi] = Model(specs[:mi + 1], counters=counters, deviations=job.get('deviations', ()))
+        return m
     outcomes = set()
     abandoned = False
     first_sample = None
@@ -172,7 +179,7 @@ def _run_cases(job, specs, descs, mods, res, bump, mode, spans, bytes_mode, tag)
                 # ---- model
                 before = counters.restores
                 try:
-                    r = mdl.parse(mname, text, pos, through=mi)
+                    r = model_for(mi).parse(mname, text, pos)
                 except IllFormed:
                     bump('skipped_illformed')
                     continue
